@@ -18,6 +18,7 @@ EXPLANATION = (
     "passed on unchanged, to_file wraps exactly those lines in the fence, constructor options stored under their own "
     "names; D1c every admitted node/edge reaches its yield on "
     "every path of its loop; D6 line templates are constants. Not decided: the exact text."
+    " Added in rounds 17-18: D4 memo entries may be tuples when every lookup takes the number; D3 the default label may come from a helper with a sentinel fall-back; no branch is decided by the truth value of the name."
 )
 ASSUMPTIONS = ["PreOrderIter admits nodes as C06 states", "user-supplied functions are opaque"]
 FILES = {"anytree/exporter/mermaidexporter.py"}
@@ -27,6 +28,7 @@ def run(ctx):
     typer = typer_for(ctx)
     X.rule_D1(ctx, typer, "MermaidExporter")
     X.rule_optint_truthiness(ctx, typer, FILES)
+    X.rule_name_truthiness(ctx, typer, FILES)
     X.rule_D1c_complete(ctx, typer, "MermaidExporter")
     ctx.floor("D1c", 2)
     X.rule_D3_escape(ctx, typer, "MermaidExporter", quoted=False)
